@@ -177,15 +177,16 @@ def _cvc5_check(text, timeout_ms):
 
 
 def _work(job):
+    z3.set_param('warning', False)
     oid, text, tier, want_model = job
     res = {'id': oid, 'runs': []}
     if not want_model:
         # vacuity canary: only `unsat` (contradictory hypotheses) is bad; keep it cheap
-        r = _z3_check(text, 3000, False)
+        r = _z3_check(text, 1500, False)
         res['runs'].append(r)
         res.update(status=r['status'], model=None, time=r['time'], backend=r['solver'])
         return res
-    r = _z3_check(text, 30000 if tier == 'thorough' else 12000, want_model)
+    r = _z3_check(text, 4000, want_model)
     res['runs'].append({k: v for k, v in r.items() if k != 'model'})
     status = r['status']
     model = r.get('model')
@@ -195,6 +196,11 @@ def _work(job):
         res['runs'].append(r3)
         if r3['status'] == 'unsat':
             status = 'unsat'
+    if status == 'unknown':
+        r5 = _z3_check(text, 30000 if tier == 'thorough' else 12000, want_model)
+        res['runs'].append({k: v for k, v in r5.items() if k != 'model'})
+        if r5['status'] != 'unknown':
+            status, model = r5['status'], r5.get('model')
     if status == 'unknown':
         # the quantifier-free part alone: unsat => proved (fewer hypotheses suffice); sat => only a CANDIDATE model
         r4 = _relaxed_check(text, 20000, want_model)
